@@ -216,6 +216,15 @@ Section Wrappers.
   Definition t_tls_write (tmo_code : N) (buf : list N) (w : val) : val * N * N :=
     let '(w1, n, e) := t_write T w buf in
     if andb (negb (e =? 0)) (e =? tmo_code) then (fst (t_close T w1), n, e) else (w1, n, e).
+  (* (spw *serialPortWrapper) Read(rxbuf): rxbuf, world, count, error value. After the
+     deadline nothing is read; the driver's own short timeout ([ser_tmo]) is masked *)
+  Definition t_serial_read (c_timedout ser_tmo deadline : N) (buf : list N) (w : val) : list N * val * N * N :=
+    let '(w0, now) := t_now T w in
+    if deadline <? now then (buf, w0, 0, c_timedout)
+    else
+      let '(w1, got, e) := t_readfull T w0 (lenN buf) in
+      (got ++ skipn (length got) buf, w1, lenN got,
+       if andb (negb (e =? 0)) (e =? ser_tmo) then 0 else e).
 End Wrappers.
 
 (* ------------------------------------------------------------------ worlds that are byte streams *)
